@@ -218,14 +218,14 @@ func init() {
 					}
 					var v eval.Value
 					var er error
-					func() {
+					guarded(map[string]interface{}{"call": "Eval", "variable": nme}, func() {
 						defer func() {
 							if p := recover(); p != nil {
 								er = fmt.Errorf("panic: %v", p)
 							}
 						}()
 						v, er = e.Eval(ctx)
-					}()
+					})
 					reads = append(reads, fmt.Sprintf("(%s, %s)", coqStr(nme), coqRes(v, er)))
 				}
 				term := fmt.Sprintf("{| vc_pre := %s; vc_names := %s; vc_keys := %s; vc_exact := %s; vc_final := %s; vc_undefined := %s; vc_bind := %s; vc_reads := %s |}",
